@@ -69,6 +69,7 @@ type Run struct {
 	Extra     map[string]interface{}
 	caseIndex []map[string]interface{} // id -> replay description (kept small: only written for mismatching ids on demand)
 	descs     []string
+	retained  []retained
 }
 
 func NewRun(prop, out, tier string, seed uint64) *Run {
@@ -151,7 +152,41 @@ func (r *Run) Fail(f Failure) {
 	}
 }
 
+// Retain remembers a byte slice returned by the library together with a private copy; every later
+// Retain call (and Finish) checks that none of the remembered slices has changed underneath the caller.
+// A result that a later, unrelated call overwrites is not a value: parse(serialise(A)) = A fails as soon
+// as anything else is serialised in between.
+type retained struct {
+	site, desc string
+	live, copy []byte
+}
+
+func (r *Run) Retain(site, desc string, out []byte) {
+	r.checkRetained()
+	if len(out) == 0 {
+		return
+	}
+	r.retained = append(r.retained, retained{site, desc, out, append([]byte(nil), out...)})
+	if len(r.retained) > 8 {
+		r.retained = r.retained[1:]
+	}
+}
+
+func (r *Run) checkRetained() {
+	kept := r.retained[:0]
+	for _, x := range r.retained {
+		if string(x.live) != string(x.copy) {
+			r.Fail(Failure{Site: x.site, Class: "returned-bytes-overwritten-by-later-call", Input: x.desc,
+				Detail: "the returned octets " + Hex(x.copy) + " later read " + Hex(x.live) + " (the result aliases storage that a later call reuses)"})
+			continue
+		}
+		kept = append(kept, x)
+	}
+	r.retained = kept
+}
+
 func (r *Run) Finish() {
+	r.checkRetained()
 	r.flush()
 	// id -> description map for mismatch reports
 	df, err := os.Create(filepath.Join(r.Out, "descs.txt"))
